@@ -310,7 +310,10 @@ def get_attribute(I, o, name):
             return 0
         if name == 'tzinfo':
             return None
-        return BoundBuiltin(o, name)
+        if name in ('weekday', 'isoweekday', 'toordinal', 'date', 'time', 'isocalendar', 'replace', 'timetuple',
+                    'strftime', 'isoformat', 'timestamp', 'astimezone', 'utcoffset'):
+            return BoundBuiltin(o, name)
+        raise PyExc('AttributeError', f'datetime.{name}')
     if isinstance(o, STimedelta):
         if name == 'days':
             if isinstance(o.secs, int) and 0 <= o.secs < 86400:
@@ -322,7 +325,9 @@ def get_attribute(I, o, name):
             return simp_int(I.binop(ast.Mod, o.secs, 86400))
         if name == 'microseconds':
             return 0
-        return BoundBuiltin(o, name)
+        if name == 'total_seconds':
+            return BoundBuiltin(o, name)
+        raise PyExc('AttributeError', f'timedelta.{name}')
     if isinstance(o, IsoCal):
         return {'year': o.vals[0], 'week': o.vals[1], 'weekday': o.vals[2]}[name]
     if isinstance(o, DateDelta):
